@@ -44,7 +44,11 @@ def generate(seed, tier):
     for r in range(k):
         receivers.append({'order': rng.getrandbits(32), 'paths': rng.getrandbits(32),
                           'reads': rng.getrandbits(32), 'read_rate': rng.choice([0.0, 0.2, 0.5, 1.0]),
-                          'clone_at': rng.randrange(n + 1)})
+                          'clone_at': rng.randrange(n + 1),
+                          # the state is installed in a node's chain manager after every block and read from there
+                          'served': rng.random() < 0.5,
+                          # a wallet builds spends against the snapshots it reads (reading must not change them)
+                          'spends': rng.random() < 0.4})
     return {'config': {'base': base, 'hard': False, 'receivers': receivers, 'wallet_keys': rng.randrange(1, 1 << 12)},
             'ops': ops}
 
@@ -89,7 +93,7 @@ def execute(script):
     env.setup()
     env.use_fast_scrypt(True)
     from engines.ledger import LedgerSim, full_fp
-    from skepticoin.wallet import Wallet
+    from skepticoin.wallet import Wallet, create_spend_transaction
     from world import ledger as W
     res = Result()
     trace = Trace()
@@ -119,11 +123,20 @@ def execute(script):
     if any(c > 1 for c in txc.values()):
         res.bump('probe:same_transaction_on_two_forks')
 
+    served_peers = []
     for rn, rc in enumerate(cfg['receivers']):
         rng_o = random.Random(rc['order'])
         rng_p = random.Random(rc['paths'])
         rng_r = random.Random(rc['reads'])
         cs = root_cs
+        cm = None
+        if rc.get('served'):
+            from skepticoin.networking.local_peer import LocalPeer
+            lp = LocalPeer()
+            served_peers.append(lp)
+            cm = lp.chain_manager
+            cm.set_coinstate(cs)
+            res.bump('probe:receiver_served_by_chain_manager')
         have = {builder.stored[0]}
         pending = list(blocks)
         snaps = []
@@ -136,12 +149,20 @@ def execute(script):
             from refmodel import rules
             bid = rules.block_id(b)
             try:
+                head_before = cs.current_chain_hash
                 if rng_p.random() < 0.5:
                     cs = cs.add_block(b, b.header.summary.timestamp)
                     res.bump('delivered_validated')
+                    validated = True
                 else:
                     cs = cs.add_block_no_validation(b)
                     res.bump('delivered_novalidation')
+                    validated = False
+                if cm is not None:
+                    cm.set_coinstate(cs, validated=validated)
+                    cs = cm.coinstate            # what the node reports
+                    if cs.current_chain_hash != head_before and b.header.summary.previous_block_hash != head_before:
+                        res.bump('probe:served_state_reorganised')
             except Exception as e:
                 # the same block was accepted on the builder's arrival order
                 res.violate(PROP, 'C03/block-not-addable-in-another-arrival-order',
@@ -160,6 +181,17 @@ def execute(script):
                 ids = sorted(target_cs.block_by_hash.keys())
                 rid = ids[rng_r.randrange(len(ids))]
                 res.bump('interleaved_reads')
+                if rc.get('spends'):
+                    hb0 = chain.blocks[target_cs.current_chain_hash]
+                    have_now = sum(v for (v, pub) in hb0.utxo.values() if pub in wpubs)
+                    amount = max(1, int(have_now * rng_r.choice([0.1, 0.5, 0.9, 1.0, 1.5])))
+                    try:
+                        create_spend_transaction(wallet, target_cs, amount, rng_r.choice([0, 1, 1000]), W.key(1).pk, wk[0].pk)
+                        res.bump('probe:wallet_spend_built_against_snapshot')
+                    except Exception:
+                        res.bump('wallet_spend_refused')      # (what a spend must look like is C14's business)
+                    if not _check_balances(res, target_cs, chain, target_cs.current_chain_hash, 'receiver %d, after the wallet built a spend' % rn):
+                        break
                 if not _check_block(res, target_cs, chain, rid, 'receiver %d read' % rn):
                     break
                 if not _check_balances(res, target_cs, chain, rid, 'receiver %d read' % rn):
@@ -192,6 +224,11 @@ def execute(script):
         if res.violations:
             break
         res.distinct.add('order:%d:%08x:%d' % (len(blocks), rc['order'], rc['paths'] & 0xffff))
+    for lp in served_peers:
+        try:
+            lp.selector.close()
+        except Exception:
+            pass
     res.events += len(blocks) * len(cfg['receivers'])
     res.digest = trace.digest()
     return res
